@@ -185,11 +185,23 @@ func (m *vMW) run(authHdr string) string {
 	c := m.e.NewContext(req, rec)
 	called := false
 	var user interface{}
-	err := m.impl.checkConnectionAuthorization(c, func(c echo.Context) error {
-		called = true
-		user = c.Get(core.UserContextKey)
-		return nil
-	})
+	var err error
+	panicked := func() (p bool) {
+		defer func() {
+			if recover() != nil {
+				p = true
+			}
+		}()
+		err = m.impl.checkConnectionAuthorization(c, func(c echo.Context) error {
+			called = true
+			user = c.Get(core.UserContextKey)
+			return nil
+		})
+		return false
+	}()
+	if panicked {
+		return "panic"
+	}
 	switch {
 	case called && err == nil:
 		return fmt.Sprintf("granted user:%v", user)
@@ -253,7 +265,11 @@ func (m *vMW) op(v vVariant, hdr string, now time.Time) (vTokOp, string) {
 		names = append(names, k.name)
 	}
 	op := vTokOp{Op: "tok", C: "apitoken", Name: v.Name, Class: v.Class, HAlg: v.HAlg, By: v.By, Hdr: hdr, Keys: names, Aud: m.aud, Now: now.Unix(), Tok: m.analyse(cred)}
-	if len(hdr) > 300 { // keep ops small: the model only needs the scheme, the field count and the credential length
+	ascii := true
+	for i := 0; i < len(hdr); i++ {
+		ascii = ascii && hdr[i] < 0x80
+	}
+	if len(hdr) > 300 && ascii { // keep ops small: the model only needs the scheme, the field count and the credential length
 		op.Hdr = ""
 	}
 	return op, m.run(hdr)
@@ -353,6 +369,30 @@ func TestVerifC04Tok(t *testing.T) {
 					c["iat"], c["nbf"] = now.Add(-3*time.Hour).UTC().Format(time.RFC3339), now.Add(-3*time.Hour).UTC().Format(time.RFC3339)
 					c["exp"] = now.Add(-time.Hour).UTC().Format(time.RFC3339)
 				}},
+				{"exp-far-future-250y", "lifetime-too-long", func(c map[string]interface{}) { c["exp"] = nowU + int64(7889400000) }},
+				{"exp-far-future-292y-plus-1d", "lifetime-too-long", func(c map[string]interface{}) { c["exp"] = nowU + int64(9240840655) }},
+				{"exp-far-future-300y", "lifetime-too-long", func(c map[string]interface{}) { c["exp"] = nowU + int64(9467280000) }},
+				{"exp-far-future-500y", "lifetime-too-long", func(c map[string]interface{}) { c["exp"] = nowU + int64(15778800000) }},
+				{"exp-far-future-584y-minus-30d", "lifetime-too-long", func(c map[string]interface{}) { c["exp"] = nowU + int64(18442825200) }},
+				{"exp-far-future-585y", "lifetime-too-long", func(c map[string]interface{}) { c["exp"] = nowU + int64(18461196000) }},
+				{"exp-far-future-600y", "lifetime-too-long", func(c map[string]interface{}) { c["exp"] = nowU + int64(18934560000) }},
+				{"exp-far-future-880y", "lifetime-too-long", func(c map[string]interface{}) { c["exp"] = nowU + int64(27770688000) }},
+				{"exp-far-future-1000y", "lifetime-too-long", func(c map[string]interface{}) { c["exp"] = nowU + int64(31557600000) }},
+				{"exp-far-future-1169y", "lifetime-too-long", func(c map[string]interface{}) { c["exp"] = nowU + int64(36890834400) }},
+				{"exp-far-future-1500y", "lifetime-too-long", func(c map[string]interface{}) { c["exp"] = nowU + int64(47336400000) }},
+				{"exp-far-future-5000y", "lifetime-too-long", func(c map[string]interface{}) { c["exp"] = nowU + int64(157788000000) }},
+				{"exp-wrap-int64-ns-minus-1", "lifetime-too-long", func(c map[string]interface{}) {
+					c["iat"], c["nbf"] = nowU-60, nowU-60
+					c["exp"] = nowU - 60 + 9223372036
+				}},
+				{"exp-wrap-int64-ns-plus-1", "lifetime-too-long", func(c map[string]interface{}) {
+					c["iat"], c["nbf"] = nowU-60, nowU-60
+					c["exp"] = nowU - 60 + 9223372038
+				}},
+				{"exp-wrap-2x-plus-1h", "lifetime-too-long", func(c map[string]interface{}) {
+					c["iat"], c["nbf"] = nowU-60, nowU-60
+					c["exp"] = nowU - 60 + 2*9223372036 + 3600
+				}},
 				{"exp-past", "expired", func(c map[string]interface{}) { c["exp"] = nowU - 30 }},
 				{"exp-now-minus-1", "expired", func(c map[string]interface{}) { c["exp"] = nowU - 1 }},
 				{"nbf-future", "not-yet-valid", func(c map[string]interface{}) { c["nbf"] = nowU + 600; c["exp"] = nowU + 3600 }},
@@ -432,6 +472,17 @@ func TestVerifC04Tok(t *testing.T) {
 				{"hdr-three-fields", "no-credential", "Bearer " + valid + " extra"},
 				{"hdr-token-only", "no-credential", valid},
 				{"hdr-bearer-colon", "no-credential", "Bearer:" + valid},
+				{"hdr-ws-nbsp-only", "no-credential", "\u00a0"},
+				{"hdr-ws-nel-only", "no-credential", "\u0085"},
+				{"hdr-ws-emspace-only", "no-credential", "\u2003\u2003"},
+				{"hdr-ws-ideographic-only", "no-credential", "\u3000"},
+				{"hdr-ws-mixed-only", "no-credential", "\u00a0\u2003 \t\u3000\u0085"},
+				{"hdr-ws-vt-ff-only", "no-credential", "\v\f"},
+				{"hdr-bearer-nbsp-token", "valid", "Bearer\u00a0" + valid},
+				{"hdr-bearer-emspace-token", "valid", "Bearer\u2003" + valid},
+				{"hdr-nbsp-bearer-token-nbsp", "valid", "\u00a0Bearer " + valid + "\u3000"},
+				{"hdr-bearer-zwsp-token", "no-credential", "Bearer\u200b" + valid},
+				{"hdr-bearer-invalid-utf8", "no-credential", "Bearer\xc2" + valid},
 				{"hdr-garbage", "garbage", "Bearer invalid"},
 				{"hdr-garbage-dots", "garbage", "Bearer a.b.c"},
 				{"hdr-empty-json", "garbage", "Bearer {}"},
